@@ -7,7 +7,7 @@ use grenad::Reader;
 
 use crate::decoder::{ends_with_valid_trailer, MAGIC_V1, MAGIC_V2};
 use crate::gen::{self, Entry, WCfg};
-use crate::io_mon::{MonSink, MonSource, SplitState};
+use crate::io_mon::{MonSink, MonSource, Split, SplitState};
 use crate::json::{hex, J};
 use crate::prng::Rng;
 use crate::verdict::{guarded, Ctx};
@@ -17,8 +17,18 @@ use crate::verdict::{guarded, Ctx};
 fn open_check(bytes: &[u8], via_source: bool) -> Option<(&'static str, String)> {
     let expect = ends_with_valid_trailer(bytes);
     let r = if via_source {
+        // through the monitored source, under a read schedule picked from the input itself:
+        // whole reads, 1-byte reads, random short reads, interruptions
         let data = Arc::new(bytes.to_vec());
-        guarded(|| Reader::new(MonSource::plain(data)).map(|_| ()))
+        let h = crate::prng::hash_bytes(3, &bytes[bytes.len().saturating_sub(24)..]) ^ bytes.len() as u64;
+        let split = match h % 5 {
+            0 => Split::Full,
+            1 => Split::One,
+            2 => Split::Rand,
+            3 => Split::IntrEvery(2),
+            _ => Split::Chaos,
+        };
+        guarded(|| Reader::new(MonSource::new("source", data, SplitState::new(split, h), None)).map(|_| ()))
     } else {
         guarded(|| Reader::new(Cursor::new(bytes)).map(|_| ()))
     };
@@ -117,7 +127,7 @@ fn file_case(ctx: &Ctx, stream: &str, idx: u64, cfg: &WCfg, entries: &[Entry], r
     ctx.eval(h, bytes.len() > 22);
     // every truncation length
     for n in 0..=bytes.len() {
-        t.open(&bytes[..n], "truncation", n % 64 == 0);
+        t.open(&bytes[..n], "truncation", n % 16 == 0 || n + 64 > bytes.len());
     }
     // crash points: sink content after each write call, and mid-write (partial last write)
     let mut prev = 0;
@@ -136,7 +146,7 @@ fn file_case(ctx: &Ctx, stream: &str, idx: u64, cfg: &WCfg, entries: &[Entry], r
         let orig = m[pos];
         for b in 0..=255u8 {
             m[pos] = b;
-            t.open(&m, "trailer-byte-substitution", false);
+            t.open(&m, "trailer-byte-substitution", b % 4 == 1);
         }
         m[pos] = orig;
     }
@@ -144,7 +154,7 @@ fn file_case(ctx: &Ctx, stream: &str, idx: u64, cfg: &WCfg, entries: &[Entry], r
     if cfg.eff_levels() == 0 {
         let v1 = super::c10::to_v1(&bytes);
         for n in v1.len().saturating_sub(40)..=v1.len() {
-            t.open(&v1[..n], "v1-truncation", false);
+            t.open(&v1[..n], "v1-truncation", n % 2 == 0);
         }
         let n1 = v1.len();
         let mut m = v1.clone();
@@ -152,7 +162,7 @@ fn file_case(ctx: &Ctx, stream: &str, idx: u64, cfg: &WCfg, entries: &[Entry], r
             let orig = m[pos];
             for b in [0u8, 1, 5, 6, 7, 0x4c, 0x4d, 0x32, 0x76, 0xc4, 0xd4, 0x23, 0x67, 0xff, orig.wrapping_add(1)] {
                 m[pos] = b;
-                t.open(&m, "v1-trailer-byte-substitution", false);
+                t.open(&m, "v1-trailer-byte-substitution", b % 2 == 1);
             }
             m[pos] = orig;
         }
@@ -162,7 +172,7 @@ fn file_case(ctx: &Ctx, stream: &str, idx: u64, cfg: &WCfg, entries: &[Entry], r
 
 pub fn run(ctx: &Ctx) -> i32 {
     // files, including values that embed a byte-exact valid trailer
-    let n = ctx.n(2500, 40_000);
+    let n = ctx.n(6000, 60_000);
     ctx.par("files", n, true, |idx, rng| {
         let (mut entries, mut cfg, _) = gen::gen_file_case(rng, 6000);
         // keep files around <= 12 KiB so that every truncation length is affordable
